@@ -965,4 +965,36 @@ theorem set_size_width (s : Sline) (sz cursor : Nat) (h1 : cursor ≤ sz) (h2 : 
 /-- outside it is: `set_size_and_cursor(2^32 + 1, 0)` gives length 1 -/
 example : ((Sline.init 4).setSizeCursorC 4294967297 0).len = 1 := by decide
 
+/-! ### round 3b: the history ring's offsets at their C width -/
+
+/-- `idx * rl->line.cap` and `rl->headhist * rl->line.cap` are `unsigned int` products.  After ANY key
+sequence, for a ring that fits an `unsigned int` (`depth * cap ≤ 2^32`) and a depth the `int hsize` of
+`readline_history_init` can hold, the offset the code adds to `history_space` — for every slot `num ≤
+depth` a recall can ask for, and for the slot a push writes — is the unbounded offset of the model
+(`histOff`, `headhist * cap`), to which `vterm_safe`, `history_is_reference`, `history_recall` apply.
+`_partial`: the hypothesis `depth * cap ≤ 2^32` (`cap` itself is an `unsigned int`). -/
+theorem ring_offsets_width_partial (cap depth : Nat) (hcap : 1 ≤ cap) (hd : 1 ≤ depth) (cxx : Bool) (prompt : List Byte)
+    (keys : List Byte) (hc : cap < 4294967296) (hdi : depth ≤ 2147483647) (hfit : depth * cap ≤ 4294967296)
+    (num : Nat) (hn : num ≤ depth) :
+    let rl := ((Vterm.init cap depth cxx prompt).run keys).nrl
+    rl.histOffC num = rl.histOff num ∧ rl.pushOffC = rl.headhist * rl.line.cap := by
+  intro rl
+  have hs := run_sim cap depth hd _ _ keys (init_sim cap depth hcap hd cxx prompt)
+  have h1 : rl.hsize = depth := hs.sim.histOK.hsize
+  have h2 : rl.headhist < depth := hs.sim.histOK.head
+  have h3 : rl.line.cap = cap := hs.sim.lcap
+  obtain ⟨a, b, _⟩ := histOffC_eq rl num (by omega) (by omega) (by omega) (by omega) (by omega) (by rw [h1, h3]; exact hfit)
+  exact ⟨a, b⟩
+
+example : ((Vterm.init 4 2 false).run [0x61, CR, 0x62, CR]).nrl.histOffC 1 = 4 ∧
+    ((Vterm.init 4 2 false).run [0x61, CR, 0x62, CR]).nrl.pushOffC = 0 := by decide
+
+/-- beyond it the product wraps: 65537 slots of 65536 bytes (4 GiB + 64 KiB), write index on the last
+slot: the push lands on slot 0 (offset 2^32 wraps to 0), a recall of that slot reads slot 0 — the
+offsets are wrong although every byte of the ring exists. -/
+theorem ring_offsets_width_witness :
+    let rl : Readline := { Readline.init 0 0 with line := { Sline.init 0 with cap := 65536 }, hsize := 65537, headhist := 65536 }
+    rl.pushOffC = 0 ∧ rl.headhist * rl.line.cap = 4294967296 ∧
+    rl.histOffC 0 = 0 ∧ rl.histOff 0 = 4294967296 ∧ rl.clearedC = 65536 := by decide
+
 end Igris.C15
